@@ -94,6 +94,10 @@ pub struct Outcome {
     pub input: Val,
     pub obs: Val,
     pub checks: Vec<String>,
+    /// status and raw response headers (None when serve panicked)
+    pub raw: Option<(u16, Vec<(String, Vec<u8>)>)>,
+    pub ncalls: usize,
+    pub body_bytes: u64,
 }
 
 pub fn run(case: &ServeCase) -> Outcome {
@@ -120,10 +124,16 @@ pub fn run(case: &ServeCase) -> Outcome {
 
     let mut now_s = 0u64;
     let mut npolls = 0u64;
+    let mut raw = None;
+    let mut body_bytes = 0u64;
     let obs = match res {
         Err(_) => Val::L(vec![Val::bytes(b"PANIC")]),
         Ok(resp) => {
             let (parts, body) = resp.into_parts();
+            raw = Some((
+                parts.status.as_u16(),
+                parts.headers.iter().map(|(k, v)| (k.as_str().to_string(), v.as_bytes().to_vec())).collect::<Vec<_>>(),
+            ));
             let mut hdrs: Vec<(Vec<u8>, Vec<u8>)> = vec![];
             for (k, v) in parts.headers.iter() {
                 let name = k.as_str().as_bytes().to_vec();
@@ -168,7 +178,10 @@ pub fn run(case: &ServeCase) -> Outcome {
                     Ok(Poll::Pending) => (Val::N(0), false),
                     Ok(Poll::Ready(None)) => (Val::N(1), true),
                     Ok(Poll::Ready(Some(Ok(f)))) => match f.into_data() {
-                        Ok(d) => (Val::B(d.to_vec()), false),
+                        Ok(d) => {
+                            body_bytes += d.len() as u64;
+                            (Val::B(d.to_vec()), false)
+                        }
                         Err(_) => (Val::L(vec![Val::N(8)]), false),
                     },
                     Ok(Poll::Ready(Some(Err(e)))) => (classify_err(&e), true),
@@ -240,7 +253,9 @@ pub fn run(case: &ServeCase) -> Outcome {
         Val::N(npolls),
         case.hints.clone(),
     ]);
-    Outcome { input, obs, checks }
+    let ncalls = lg.calls.len();
+    drop(lg);
+    Outcome { input, obs, checks, raw, ncalls, body_bytes }
 }
 
 /// Rebuilds a case from an input value (replay / shrinking): streams become literal recipes.
